@@ -5,9 +5,10 @@ SPEC = {
                    "4": "MakeTester / Test verdicts", "5": "FilterToProto (after Marshal/Unmarshal)",
                    "6": "FilterFromProto result", "7": "harness re-encoding = model's repr (what MySQL hands back)",
                    "8": "extractRow / tester on the row's own values",
-                   "9": "time text: the model's own time.Format / mysql.parseDateTime (Sql/TimeText.v) vs Go on every time and every string of the shard"},
+                   "9": "time text: the model's own time.Format / mysql.parseDateTime (Sql/TimeText.v) vs Go on every time and every string of the shard",
+                   "12": "the codec's kind / tag / protobuf dispatch tables extracted from internal/fields/sql.go and livesql/marshal.go (go/ast) vs what the model does (Sql/FieldTables.v field_tables_check)"},
     "corr_name": "Sql.Codec (valuer, scanner, unbuild, build, parse_binlog_row, tester, filter_to_proto, filter_from_proto) vs internal/fields/sql.go, sqlgen/reflect.go, livesql/marshal.go, livesql/binlog.go",
-    "coq_modules": ["Sql.TimeText", "Sql.TimeTextProofs", "Sql.Codec", "Sql.CodecProofs", "Sql.CodecTime"],
+    "coq_modules": ["Sql.TimeText", "Sql.TimeTextProofs", "Sql.Codec", "Sql.CodecProofs", "Sql.CodecTime", "Gen.FieldKinds", "Sql.FieldTables"],
     "trusted_base": [
         "Coq 8.16.1 kernel and vm_compute (no native_compute); Print Assumptions: closed under the global context",
         "hand-written model coq/theories/Sql/Codec.v of internal/fields/sql.go (Valuer.Value, Scanner.Scan), sqlgen/reflect.go (unbuildStruct, BuildStruct, tester, extractRow, driverValuesEqual), livesql/binlog.go (parseBinlogRow), livesql/marshal.go, and of the parts of database/sql (convertAssign, asString, driver.Bool) and go-sql-driver/mysql (NullTime.Scan) they call; tied to the code by the correspondence check only",
